@@ -7,9 +7,12 @@
     (termination, no exception, totality) and [Proofs/ParserTermExamples.v].
 
     The model is [Parse/Parser.v]: one fuelled [run] over a task sum type;
-    [parse_top s tol cx ps = parse_content (run (8 * length s + 40) (TGeneral ps
+    [parse_top s tol cx ps = parse_content (run (parse_fuel s cx) (TGeneral ps
     top_opts 0))] is [LatexWalker(s, tolerant_parsing=tol,
-    latex_context=cx).parse_content(LatexGeneralNodesParser())].  Exceptions are
+    latex_context=cx).parse_content(LatexGeneralNodesParser())]; the recursion
+    budget is [parse_fuel s cx = length s * (8 + max_args cx) + 40 + max_args
+    cx], where [max_args cx] is the maximal number of argument slots of any
+    specification of the context [cx].  Exceptions are
     result constructors: [PErr] = LatexWalkerParseError, [REOS] =
     LatexWalkerEndOfStream, [RExn k] = any other exception class (KeyError,
     TypeError, impossible shapes), [OutOfFuel] = non-termination within the
@@ -56,24 +59,29 @@ Theorem C06_no_exception : forall s tol cx f t k,
   task_ok s cx t -> run s tol cx f t <> RExn k.
 Proof. exact run_no_exn. Qed.
 
-(** ** The top-level parse terminates within the model's fixed fuel
+(** ** The top-level parse terminates within the model's own fuel, for EVERY
+    string and EVERY context
 
-    [ctx_wf cx] = every specification of the context has at most 10 argument
-    slots ([max_args cx <= 10]); the default context has at most 6.  The bound
-    is sharp for the model's fuel constant [8 * length s + 40]: see
-    [C06_fuel_bound_sharp]. *)
-Theorem C06_terminates : forall s tol cx, ctx_wf cx = true ->
+    [parse_fuel s cx = length s * fuel_unit cx + fuel_base cx] with [fuel_unit
+    cx = 8 + max_args cx] and [fuel_base cx = 40 + max_args cx]: the unit
+    satisfies the two constraints of [C06_fuel_enough] whatever the context
+    is. *)
+Theorem C06_fuel_is : forall s cx,
+  parse_fuel s cx = length s * (8 + max_args cx) + (40 + max_args cx).
+Proof. reflexivity. Qed.
+
+Theorem C06_terminates : forall s tol cx,
   parse_top s tol cx (walker_state cx) <> OutOfFuel.
 Proof. exact parse_top_terminates. Qed.
 
 (** ** Tolerant parsing is total: a node list for every string *)
-Theorem C06_total : forall s cx, ctx_wf cx = true ->
+Theorem C06_total : forall s cx,
   exists nl p, parse_top s true cx (walker_state cx) = Ok (ONode (Some nl)) p.
 Proof. exact C06_total_proof. Qed.
 
 (** for comparison, strict parsing: a node list, or a parse error that carries
     the nodes read before it *)
-Theorem C06_strict_outcome : forall s cx, ctx_wf cx = true ->
+Theorem C06_strict_outcome : forall s cx,
   (exists nl p, parse_top s false cx (walker_state cx) = Ok (ONode (Some nl)) p) \/
   (exists e p nl, parse_top s false cx (walker_state cx) = PErr e p /\ pe_nodes e = Some nl).
 Proof. exact parse_top_strict_proof. Qed.
@@ -85,9 +93,10 @@ Proof. exact parse_top_pos_proof. Qed.
 
 (** ** Instances *)
 
-(** the default context (regenerated from /repo on every run) is well formed *)
-Example C06_default_ctx_wf : ctx_wf default_ctx = true.
-Proof. exact default_ctx_wf. Qed.
+(** the default context (regenerated from /repo on every run): at most 10
+    argument slots per specification *)
+Example C06_default_ctx_max_args : max_args default_ctx <= 10.
+Proof. exact default_ctx_max_args. Qed.
 
 (** non-vacuity of [C06_total]: inputs on which strict parsing fails (a stray
     closing brace after valid content; unclosed math in an unclosed
@@ -103,7 +112,7 @@ Proof. exact (conj ex_stray_strict (conj ex_stray_tolerant (conj ex_open_strict 
 Example C06_run_mono_nonvacuous :
   let t := TGeneral (walker_state default_ctx) top_opts 0 in
   is_oof (run ex_stray true default_ctx 60 t) = false /\
-  run ex_stray true default_ctx (parse_fuel ex_stray) t = run ex_stray true default_ctx 60 t /\
+  run ex_stray true default_ctx (parse_fuel ex_stray default_ctx) t = run ex_stray true default_ctx 60 t /\
   is_oof (run ex_stray true default_ctx 10 t) = true.
 Proof. exact (conj (proj1 run_mono_nonvacuous) (conj (proj2 run_mono_nonvacuous) run_small_fuel)). Qed.
 
@@ -111,22 +120,36 @@ Proof. exact (conj (proj1 run_mono_nonvacuous) (conj (proj2 run_mono_nonvacuous)
 Example C06_fuel_enough_nonvacuous :
   4 <= 8 /\ max_args default_ctx + 6 <= 2 * 8 /\
   task_ok ex_open default_ctx (TGeneral (walker_state default_ctx) top_opts 0) /\
-  need ex_open 8 (TGeneral (walker_state default_ctx) top_opts 0) <= parse_fuel ex_open.
+  need ex_open 8 (TGeneral (walker_state default_ctx) top_opts 0) <= parse_fuel ex_open default_ctx.
 Proof. exact run_fuel_enough_nonvacuous. Qed.
 
-(** the hypothesis [ctx_wf] cannot be dropped for the MODEL: with 11 argument
-    slots an 80-character input exhausts the model's fixed fuel, with 10 it does
-    not (the real parser handles both inputs) *)
-Example C06_fuel_bound_sharp :
+(** a context with 11 argument slots (one specials [~] taking ten optional
+    stars and a mandatory argument) and the 80-character input [~{~{~{...]:
+    tolerant parsing returns the nested tree, strict parsing the parse error for
+    the unclosed groups, within the model's fuel [80 * 19 + 51] ... *)
+Example C06_many_slots_terminate :
   max_args (slots_ctx 10) = 11 /\
-  parse_top (tilde_braces 40) true (slots_ctx 10) (walker_state (slots_ctx 10)) = OutOfFuel /\
+  parse_fuel (tilde_braces 40) (slots_ctx 10) = 19 * 80 + 51 /\
+  is_nodes (parse_top (tilde_braces 40) true (slots_ctx 10) (walker_state (slots_ctx 10))) = true /\
+  is_perr (parse_top (tilde_braces 40) false (slots_ctx 10) (walker_state (slots_ctx 10))) = true.
+Proof. exact many_slots_terminates. Qed.
+
+(** ... remark: a budget that does not depend on the context would not do — the
+    constant [8 * length s + 40] (the model's fuel before it was made to depend
+    on [max_args cx]) is exhausted on this input with 11 slots, not with 10 (the
+    real parser handles both inputs) *)
+Example C06_constant_fuel_not_enough :
+  run (tilde_braces 40) true (slots_ctx 10) (8 * 80 + 40)
+      (TGeneral (walker_state (slots_ctx 10)) top_opts 0) = OutOfFuel /\
   max_args (slots_ctx 9) = 10 /\
-  is_nodes (parse_top (tilde_braces 40) true (slots_ctx 9) (walker_state (slots_ctx 9))) = true.
-Proof. exact fuel_bound_sharp. Qed.
+  is_oof (run (tilde_braces 40) true (slots_ctx 9) (8 * 80 + 40)
+              (TGeneral (walker_state (slots_ctx 9)) top_opts 0)) = false.
+Proof. exact old_fixed_fuel_not_enough. Qed.
 
 Print Assumptions C06_run_mono.
 Print Assumptions C06_fuel_enough.
 Print Assumptions C06_no_exception.
+Print Assumptions C06_fuel_is.
 Print Assumptions C06_terminates.
 Print Assumptions C06_total.
 Print Assumptions C06_strict_outcome.
@@ -219,10 +242,9 @@ Proof. exact prefix_closing. Qed.
     the document has no trailing whitespace, [g] does not start with a letter or
     a whitespace character ([inertf]; otherwise [g] would change the last token
     of the document itself, e.g. [\alpha] + [x] is the macro [\alphax]).
-    [ctx_wf] (at most 10 argument slots per specification) is the termination
-    hypothesis of [C06_total]. *)
+    Every context. *)
 Theorem C06_prefix_partial : forall cx d g,
-  ctx_wf cx = true -> ok_doc cx d = true -> (d_trail d = [] -> inertf (hd_error g)) ->
+  ok_doc cx d = true -> (d_trail d = [] -> inertf (hd_error g)) ->
   exists a b rest p,
     parse_top (unparse d ++ g) true cx (walker_state cx)
     = Ok (ONode (Some (NList a b (settled cx (d_items d) ++ rest)))) p.
@@ -232,7 +254,7 @@ Proof. exact prefix_any. Qed.
     well formed (the general form: [fol] is the document's trailing whitespace
     and the garbage) *)
 Theorem C06_prefix_items_partial : forall cx l fol,
-  ctx_wf cx = true -> ok_items cx (walker_state cx) l (hd_error fol) = true ->
+  ok_items cx (walker_state cx) l (hd_error fol) = true ->
   exists a b rest p,
     parse_top (unparse_items l ++ fol) true cx (walker_state cx)
     = Ok (ONode (Some (NList a b (settled cx l ++ rest)))) p.
@@ -297,7 +319,7 @@ Proof. vm_compute. reflexivity. Qed.
     the recovered group *)
 Example C06_prefix_nonvacuous :
   let g := [123;120;36] in
-  ctx_wf default_ctx = true /\ ok_doc default_ctx c06_doc = true /\ inertf (hd_error g) /\
+  ok_doc default_ctx c06_doc = true /\ inertf (hd_error g) /\
   length (settled default_ctx (d_items c06_doc)) = 5%nat /\
   is_perr (parse_top (unparse c06_doc ++ g) false default_ctx (walker_state default_ctx)) = true /\
   match parse_top (unparse c06_doc ++ g) true default_ctx (walker_state default_ctx) with
